@@ -72,8 +72,14 @@ deriving Inhabited
 /-! ### shape functions of the extension leaves -/
 
 /-- an error that is not an exception class of the real code but the model's "not modelled here" marker -/
+def xOutsideMarkers : List String :=
+  ["outside-model:decimal-str", "outside-model:decimal-seq", "outside-model:decimal-ser",
+   "outside-model:foreign-member", "outside-model:timestamp", "outside-model:temporal-conversion",
+   "outside-model:typedfield-from-list", "outside-model:typedfield-from-dict", "outside-model:mixin-raw-value",
+   "outside-model:untyped-structure", "outside-model:float-key", "outside-model:foreign-instance"]
+
 def xOutside : ErrCls → Bool
-  | .other n => n.startsWith "outside-model"
+  | .other n => xOutsideMarkers.contains n     -- (every "outside-model:…" marker the models use; `==` on strings reduces in the kernel)
   | _ => false
 
 /-- `Decimal(value)`: numbers (bool included) convert exactly; None / dict raise TypeError; a str goes
